@@ -1,4 +1,5 @@
 """C09 - clients are isolated from one another."""
+from rules import http as H
 from rules import shared as S
 LEVEL = "proof"
 TRUSTED = ["TB-rustc", "TB-sqlite", "TB-mutex", "TB-actix", "TB-uuid"]
@@ -12,3 +13,5 @@ def run(rep, W, ctx):
         S.s_txn1(rep, W, W.op(opn))
     S.s_txn2(rep, W)
     S.s_scope(rep, W)
+    S.c03_nostate(rep, W)      # (c) no shared mutable state outside the storage (caches, memos, statics)
+    H.handler_args(rep, W)     # (d) ids quoted in the request are passed in the version-id positions only
